@@ -229,9 +229,41 @@ def _none_guard(f, b):
     return False
 
 
+def rule_deadline_arith(ctx, db):
+    R = ctx.rule
+    R("R6", "GUARD/arith", "a relative sleep / timeout turns its duration into a deadline with checked addition: a duration the "
+      "platform's Instant cannot represent (Duration::MAX as \"no timeout\") must not panic")
+    if not any(n.startswith("compio_runtime::time::") for n in db.adts):
+        return
+    n = 0
+    for nm in ("sleep", "timeout"):
+        fs = [f for f in db.fns.values() if f.name == "compio_runtime::time::" + nm]
+        if not fs:
+            ctx.missing("R6", "time::" + nm)
+        for f in fs:
+            n += 1
+            # the deadline handed to Sleep::new / Timeout::new
+            ctor = calls(f, r"time::future::(Sleep|Timeout::<F>)::new$|Sleep::new$|Timeout::<F>::new$")
+            ok = bool(ctor)
+            for bb, t in ctor:
+                pl = op_place(t["args"][0])
+                names = set()
+                if pl is not None:
+                    from ..util import deep_deps
+                    names, _flds = deep_deps(db, f, pl["l"])
+                panicking = any(re.search(r"Instant as core::ops::arith::Add<core::time::Duration>>::add$|ops::arith::Add::add$", x) for x in names) and \
+                    not any(x.endswith("Instant::checked_add") for x in names)
+                if panicking or not any(x.endswith("Instant::checked_add") or x.endswith("Instant::now") for x in names):
+                    ok = False
+            ctx.ob("R6", "relative-deadline-is-checked:" + nm, ok,
+                   "the deadline is computed with Instant::checked_add (with a far-future fallback), not with the panicking `+`", f)
+    ctx.floor("R6", "relative timer constructors", n, 2)
+
+
 def rules_all(ctx, db):
     rules(ctx, db)
     rule_interval(ctx, db)
+    rule_deadline_arith(ctx, db)
 
 
 def check(tier):
